@@ -92,6 +92,7 @@ type Prog struct {
 	SSAPkgs []*ssa.Package
 
 	anchorErrs []string
+	ctx        *CtxInfo
 	ssaFnByAst map[ast.Node]*ssa.Function
 }
 
